@@ -259,9 +259,11 @@ fn dd_system_k<T: Ev + Re>(rng: &mut Rng, n: usize, root: &[T], dens: usize) -> 
     (VFn { comps, ext: None }, jac)
 }
 
-fn gen_sys(rng: &mut Rng, out: &mut Vec<String>, count: usize) {
+fn gen_sys(rng: &mut Rng, out: &mut Vec<String>, count: usize) { gen_sys_n(rng, out, count, 0); }
+/// `cap` = 0: dimensions 1..6 plus the two fixed cases; otherwise dimensions from BIG up to `cap` only
+fn gen_sys_n(rng: &mut Rng, out: &mut Vec<String>, count: usize, cap: usize) {
     for i in 0..count {
-        let n = 1 + rng.below(6);
+        let n = if cap == 0 { 1 + rng.below(6) } else { big(rng, cap) };
         let tol = *rng.pick(&[1e-10, 1e-8, 1e-6, 1e-4]);
         let delta = *rng.pick(&[1e-8, 1e-6, 1.0 / 1048576.0]);
         // the three choices are drawn independently (small budgets must meet every one of the four variants)
@@ -308,6 +310,7 @@ fn gen_sys(rng: &mut Rng, out: &mut Vec<String>, count: usize) {
             out.push(emit("c", wr_vec(&guess), wr_vec(&root), f.show(), js, "basin-dd"));
         }
     }
+    if cap != 0 { return; }
     // root-free system and a map whose output size changes
     let f: VFn<f64> = VFn { comps: vec![add(mul(v(0), v(0)), k(1.0)), add(v(1), k(0.0))], ext: None };
     out.push(format!("newton_v f {} {} {} 7 rootfree 0 {} fd", wr_vec(&[0.5f64, 0.25]), (1e-8f64).wr(), (1e-8f64).wr(), f.show()));
@@ -319,6 +322,8 @@ pub fn gen(rng: &mut Rng, tier: Tier, out: &mut Vec<String>) {
     let n = if tier == Tier::Quick { 400 } else { 7000 };
     gen_scalar(rng, out, n);
     gen_sys(rng, out, n / 2);
+    // LARGER SYSTEMS (dimension 11 .. 25)
+    gen_sys_n(rng, out, if tier == Tier::Quick { 10 } else { 200 }, 25);
 }
 
 pub fn gen_c18(rng: &mut Rng, tier: Tier, out: &mut Vec<String>) {
@@ -343,4 +348,18 @@ pub fn gen_c18(rng: &mut Rng, tier: Tier, out: &mut Vec<String>) {
     out.push(format!("jacobian f {} {} badsize {}", wr_vec(&[1.0f64, 2.0]), (0.5f64).wr(), f.show()));
     let f: VFn<f64> = VFn { comps: vec![k(1.0)], ext: None };
     out.push(format!("jacobian f 0 {} affine {}", (0.5f64).wr(), f.show()));
+
+    // LARGER MAPS (up to 33 x 33, also 1 x n and m x 1)
+    for i in 0..(if tier == Tier::Quick { 8 } else { 160 }) {
+        let (m, n) = match i % 4 { 0 => (1, big(rng, 33)), 1 => (big(rng, 33), 1), _ => (big(rng, 33), big(rng, 33)) };
+        let delta = 2f64.powi(-(4 + rng.below(20) as i32));
+        let point: Vec<f64> = (0..n).map(|_| rng.range(-16, 16) as f64 / 4.0).collect();
+        let comps: Vec<E<f64>> = (0..m).map(|_| { let mut e: E<f64> = k(rng.range(-8, 8) as f64 / 2.0); for j in 0..n { if rng.chance(40) { e = add(e, mul(k(rng.range(-8, 8) as f64 / 2.0), v(j))); } } e }).collect();
+        out.push(format!("jacobian f {} {} affine {}", wr_vec(&point), delta.wr(), VFn { comps, ext: None }.show()));
+        if i % 2 == 0 && n <= 20 && m <= 20 {
+            let cp: Vec<Cmplx> = (0..n).map(|_| Cmplx::new(rng.range(-8, 8) as f64 / 4.0, rng.range(-8, 8) as f64 / 4.0)).collect();
+            let comps: Vec<E<Cmplx>> = (0..m).map(|_| { let mut e: E<Cmplx> = Expr::Const(Cmplx::new(rng.range(-4, 4) as f64, rng.range(-4, 4) as f64)); for j in 0..n { if rng.chance(40) { e = add(e, mul(Expr::Const(Cmplx::new(rng.range(-4, 4) as f64 / 2.0, rng.range(-4, 4) as f64 / 2.0)), v(j))); } } e }).collect();
+            out.push(format!("jacobian c {} {} affine {}", wr_vec(&cp), delta.wr(), VFn { comps, ext: None }.show()));
+        }
+    }
 }
